@@ -27,6 +27,14 @@ CHECKS = {
    "The full configuration grid (16 sizes x legacy/modern x 8 flag sets x in-use x 7 max-size answers x 3 DMA fault points = 10752 configurations) is enumerated on every run and a generator adds random device-address bases; geometry, containment in live DMA memory of a permitting direction, zeroed rings, refusal without side effects and exact release are computed independently of the crate.",
    "Trusted: ledger Hal and model transport. The grid is exhaustive; device-address bases are sampled.",
    "exhaustive configuration enumeration + proptest on address bases, geometry oracle"),
+ "C08": ("driver-sim", "exploration", "4 C08",
+   "All 11 constructors x 5 transports x every subset of the feature bits the driver inspects (alone and with unsupported noise bits, plus all-ones; random 64-bit sets on top): an automaton over the ordered transport trace checks reset -> ACKNOWLEDGE|DRIVER -> feature read -> accepted subset of offered and implemented, VERSION_1 iff offered, no ring-format bits -> FEATURES_OK -> queues -> DRIVER_OK and no notification before DRIVER_OK; a short usage phase on the driver's reference device judges the feature-gated behaviour (indirect descriptors, flush, console size/emergency write, EDID, net header size).",
+   "Trusted: transport models map register writes to the same abstract events; 'supports' = each driver's current SUPPORTED_FEATURES. Subsets of inspected bits are enumerated completely; arbitrary 64-bit sets are sampled.",
+   "exhaustive configuration enumeration + proptest, ordered-trace automaton oracle + reference devices"),
+ "C09": ("driver-sim", "fault_enumeration", "4 C09",
+   "For every constructor x transport x flag set x usage-script length, a dry run counts the DMA allocations of construction + usage + drop, then every allocation index is failed in turn; random fault indices/feature sets/policies on top. The ledger Hal and the transport model decide: failure surfaces as Err (no panic), every region returned once with its original triple, nothing live after drop, no queue memory or GPU backing released while the device is live/attached.",
+   "Trusted: ledger Hal, device liveness from the transport model (reset counts as quiescing). Heap buffers are observed through shares/queue memory, not an allocator interposer.",
+   "exhaustive DMA-fault-index enumeration + proptest, resource-ledger and liveness invariant"),
  "C10": ("mmio-trace", "exploration", "4 C10",
    "Every MMIO load/store of the real MmioTransport is served and recorded by a register-level virtio-mmio model (legacy and modern) plugged in through safe-mmio's custom-mmio backend; generated operation sequences and probe headers are judged per operation against access scripts/constraints derived from VirtIO 1.2 4.2.2-4.2.4 and against the model's resulting state; SomeTransport::Mmio must be trace-identical.",
    "Trusted: the virtio-mmio register model and per-operation scripts written from the specification; all MMIO goes through safe-mmio.",
@@ -43,13 +51,41 @@ CHECKS = {
    "Bounds: exhaustive grid of window sizes, access types, offsets (incl. offsets whose end overflows usize) on MMIO legacy/modern and PCI with an exact byte-coverage oracle on the bus trace. Torn reads: the five multi-field reads of the drivers with the device switching self-identifying snapshots before every single access index, every pair, and generated larger sets; the result must be one exposed snapshot.",
    "Trusted: bus trace, emulated config window, snapshot scheduler. Legacy MMIO has no generation counter: untorn reads not asserted there.",
    "exhaustive grid enumeration + schedule enumeration of device-side config updates, snapshot-membership oracle"),
+ "C14": ("driver-sim", "exploration", "4 C14",
+   "Generated histories of blocking and non-blocking block operations against a reference block device that parses every chain (header, data direction/size, status byte) and an in-memory disk compared at the end; injected statuses; device-chosen completion order for up to a queue-full of outstanding requests; all transports, feature sets and device servicing policies.",
+   "Trusted: reference block device written from virtio-blk 5.2; blocking calls only while nothing non-blocking is outstanding (documented precondition).",
+   "proptest histories + reference device (differential in-memory disk)"),
+ "C15": ("driver-sim", "exploration", "4 C15",
+   "Generated device byte streams (chunks 1..4096) and interleavings of every receive/peek/buffered-read/ready/ack/send call with deliveries at generated moments and during blocking reads; oracle = stream equality, one outstanding receive buffer, re-post only after full consumption, exact transmit chains.",
+   "Trusted: reference console device; blocking reads issued only while the device still has data.",
+   "proptest histories + reference device (stream-equality oracle)"),
+ "C16": ("driver-sim", "exploration", "4 C16",
+   "Generated histories on the raw and the buffer-managing network driver (N in {2,4,16}, +-VERSION_1, buffer sizes, all transports): exact transmit chains (zeroed 12/10-byte header + frame), received frame bytes and lengths, buffer conservation (posted + pending + caller-owned = N) after every operation, readiness queries.",
+   "Trusted: reference network device; preconditions of the blocking helpers respected.",
+   "proptest histories + reference device (frame equality, conservation invariant)"),
+ "C17": ("driver-sim", "exploration", "4 C17",
+   "Reference vsock peer tracking both credit windows and both byte streams over generated interleavings (sends, receives, peer data in any packetisation within credit, growing/shrinking/zero windows, credit requests) on every capacity/RX-buffer size/transport; plus ConnectionInfo + VirtIOSocket driven directly with steps of up to 2^32-1 so every counter crosses 2^32 within tens of operations.",
+   "Trusted: reference peer (free-running u32 arithmetic); peer never claims to have consumed more than was sent; capacity 0 excluded.",
+   "proptest histories + reference peer (credit invariants, stream equality), deterministic counter-wrap runs"),
+ "C18": ("driver-sim", "exploration", "4 C18",
+   "Lock-step reference model of the connection table over 3 peers x 3 ports with every local operation and every peer packet kind (incl. invalid ops, control packets with data, wrong CID, unknown connections); every poll result, transmitted packet and recv result compared; all receive buffers back with the device after every operation.",
+   "Trusted: connection-table model; duplicate REQUESTs for an existing connection and results after peer shutdown are outside the property and not generated/compared.",
+   "proptest histories + lock-step reference model"),
+ "C19": ("driver-sim", "exploration", "4 C19",
+   "OwningQueue for 12 (N,B) instantiations, the input driver and the sound driver's notification queue: device completes any posted buffer in any order, bursts and up to 300 burst/drain rounds; deliveries must equal completions in used-ring order with the written bytes; each delivered buffer is re-posted immediately under the same token and caller address; posted + pending = N.",
+   "Trusted: reference event device and ledger (buffer identity via caller address).",
+   "proptest histories + reference device (order/once/replenish invariants)"),
+ "C20": ("driver-sim", "exploration", "4 C20",
+   "Reference GPU, sound, entropy, clock and 9P devices decode every chain against independently written specification structures, enforce command ordering, inject error/unknown/wrong-success responses, complete PCM transfers with generated lag or in device-chosen order, serve arbitrary EDID blobs judged by an independent decoder; the ledger reports GPU backing released while attached.",
+   "Trusted: reference devices from the specs (virtio-gpu, virtio-snd, entropy, rtc draft, 9p transport); lifetime/ordering oracles only while no device error occurred, as the property states.",
+   "proptest histories + reference devices (spec-structure decode, lifetime ledger, independent EDID decoder)"),
 }
 
 TODO = {}
 for i in range(7, 21):
     if "C%02d" % i in CHECKS:
         continue
-    TODO["C%02d" % i] = "check not built yet in this round (planned, see DESIGN.md section 4)"
+    TODO["C%02d" % i] = "hostile-device check (libFuzzer/ASan + differential) not built yet; planned, see DESIGN.md section 4 C07"
 
 def main():
     hook_commits = subprocess.run(["git", "-C", "/repo", "log", "--format=%H", "--grep=^verif:"], capture_output=True, text=True).stdout.split()
@@ -64,6 +100,8 @@ def main():
             "add_only": True,
         },
         "engines": [
+            {"name": "driver-sim", "path": "harness/src/devq.rs", "serves_properties": ["C08", "C09", "C14", "C15", "C16", "C17", "C18", "C19", "C20"],
+             "kind_free_text": "complete drivers on model/MMIO/PCI transports against spec-level reference devices with OnNotify/Poll/Late servicing policies and spin-hook lost-wake-up detection"},
             {"name": "mmio-trace", "path": "harness/src/props/c10.rs", "serves_properties": ["C10"],
              "kind_free_text": "register-level virtio-mmio model behind safe-mmio custom-mmio; ordered access trace vs spec scripts"},
             {"name": "config-space", "path": "harness/src/props/c13.rs", "serves_properties": ["C13"],
